@@ -98,6 +98,10 @@ def run(chk, prop):
         # formatter plug-ins as transitions: the registry machine restricted to what concerns rendering
         from . import registry
         registry.cases(chk, "C03")
+    if prop == "C08":
+        # the object every verdict is read from: ValidationResult as a machine (spec/D42Result.tla)
+        from . import resultmachine
+        resultmachine.cases(chk)
     if prop in ("C03", "C08"):
         install_plugins()
     quick = chk.tier == "quick"
